@@ -280,7 +280,7 @@ pub fn run(args: &[String]) -> ! {
                batch; model == stored set and stored count after every commit. Non-trivial: a block \
                whose transactions name the same key at least twice and at least one non-empty batch",
         cases_quick: 800,
-        cases_thorough: 30_000,
+        cases_thorough: 20_000,
         shards: 12,
         min_nontrivial: 0.1,
         max_shrink_iters: 200,
